@@ -3,6 +3,7 @@ package websocket
 import (
 	"context"
 	"errors"
+	"io"
 	"net"
 	"time"
 )
@@ -61,6 +62,12 @@ type vSession struct {
 	closeInExp bool
 	budget     time.Duration
 	trace      string
+	// open: a streamed message begun by one step and not yet finished (fragments written so far in openSoFar)
+	open        io.WriteCloser
+	openCancel  context.CancelFunc
+	openSoFar   []byte
+	unfinished  bool // the connection ended while a streamed message was unfinished
+	intruded    bool // a write reported success while another message was open: only the structure of the wire is judged
 }
 
 func (s *vSession) mk(f vFrame) vFrame {
@@ -158,6 +165,17 @@ func (s *vSession) opWrite(n int, typ MessageType) {
 	err := s.c.Write(ctx, typ, p)
 	cancel()
 	vAssert(vEqBytes(p, keep), "Gen.write.caller-buffer-intact")
+	if s.usable && s.open != nil {
+		// another message is in progress: this one waits for it until its own context ends and fails; nothing of it may
+		// reach the wire, and the connection stays as it is
+		// (a library that could send it without touching the open message would be right too: if it reports success, only
+		// the structure of the wire is judged)
+		if err == nil {
+			s.intruded = true
+		}
+		s.budget += time.Second
+		return
+	}
 	if s.usable {
 		vAssert(err == nil, "Gen.write.succeeds-while-open")
 		s.exp = append(s.exp, vSessOut{kind: 'm', typ: typ, payload: keep})
@@ -189,6 +207,13 @@ func (s *vSession) opStream(la, lb int) {
 			failed = true
 		}
 	}
+	if s.usable && s.open != nil {
+		if !failed {
+			s.intruded = true
+		}
+		s.budget += time.Second
+		return
+	}
 	if s.usable {
 		vAssert(!failed, "Gen.stream.succeeds-while-open")
 		s.exp = append(s.exp, vSessOut{kind: 'm', typ: MessageText, payload: append(append([]byte{}, a...), b...)})
@@ -196,6 +221,44 @@ func (s *vSession) opStream(la, lb int) {
 		vAssert(failed, "Gen.after.writer-fails")
 		s.budget += time.Second
 	}
+}
+
+// opBegin: a streamed message is begun and its first fragment written; it stays open across the following steps.
+func (s *vSession) opBegin() {
+	s.trace += "B"
+	ctx, cancel := context.WithCancel(vBG)
+	w, err := s.c.Writer(ctx, MessageText)
+	if !s.usable {
+		vAssert(err != nil, "Gen.after.writer-fails")
+		cancel()
+		return
+	}
+	vAssert(err == nil, "Gen.stream.succeeds-while-open")
+	if err != nil {
+		cancel()
+		return
+	}
+	a := vBytes("ba", 2)
+	_, err = w.Write(a)
+	vAssert(err == nil, "Gen.stream.succeeds-while-open")
+	s.open, s.openCancel, s.openSoFar = w, cancel, append([]byte{}, a...)
+}
+
+// opEnd: the open streamed message gets its last fragment and is closed.
+func (s *vSession) opEnd() {
+	s.trace += "E"
+	b := vBytes("bb", 1)
+	_, e1 := s.open.Write(b)
+	e2 := s.open.Close()
+	s.openCancel()
+	if s.usable {
+		vAssert(e1 == nil && e2 == nil, "Gen.stream.succeeds-while-open")
+		s.exp = append(s.exp, vSessOut{kind: 'm', typ: MessageText, payload: append(s.openSoFar, b...)})
+	} else {
+		vAssert(e1 != nil || e2 != nil, "Gen.after.writer-fails")
+		s.unfinished = true
+	}
+	s.open = nil
 }
 
 func (s *vSession) opClose() {
@@ -257,7 +320,7 @@ func (s *vSession) checkWire() {
 	vAssert(ok, "Gen.wire.wellformed")
 	good, inMsg, _ := vWireSequenceOK(frames, s.client)
 	vAssert(good, "Gen.wire.frame-sequence")
-	vAssert(!inMsg, "Gen.wire.no-unfinished-message")
+	vAssert(!inMsg || s.unfinished, "Gen.wire.no-unfinished-message")
 	var act []vSessOut
 	var cur []byte
 	var curTyp MessageType
@@ -292,6 +355,9 @@ func (s *vSession) checkWire() {
 		default:
 			vAssert(false, "Gen.wire.opcode")
 		}
+	}
+	if s.intruded {
+		return
 	}
 	j := 0
 	for _, e := range s.exp {
@@ -349,6 +415,8 @@ func verifGen_session() {
 	steps := vParam("steps", 3)
 	lean := vParam("lean", 0) >= 1
 	lean2 := vParam("lean", 0) == 2
+	// stream=1: a streamed message may be begun in one step and finished in a later one, with anything in between
+	stream := vParam("stream", 0) == 1
 	pick := func(tag string, n int, fixed int) int {
 		if lean2 {
 			return fixed
@@ -372,6 +440,9 @@ func verifGen_session() {
 			if lean2 {
 				after = []int{0, 2, 3}
 			}
+			if s.open != nil {
+				after = append(after, 5)
+			}
 			ai := 0
 			if prog > 0 {
 				ai = (prog >> (4 * uint(i))) & 15
@@ -389,6 +460,8 @@ func verifGen_session() {
 				s.opClose()
 			case 4:
 				s.opCloseNow()
+			case 5:
+				s.opEnd()
 			}
 			continue
 		}
@@ -399,6 +472,13 @@ func verifGen_session() {
 		}
 		if mode != 0 {
 			ops = append(ops, 14)
+		}
+		if stream {
+			if s.open == nil {
+				ops = append(ops, 15)
+			} else {
+				ops = append(ops, 16)
+			}
 		}
 		oi := 0
 		if prog > 0 {
@@ -506,6 +586,10 @@ func verifGen_session() {
 			}
 			cancel()
 			s.exp = append(s.exp, vSessOut{kind: 'm', typ: MessageBinary})
+		case 15:
+			s.opBegin()
+		case 16:
+			s.opEnd()
 		case 14:
 			// a compressed message (one stored block, sync-flush ending) in one or two frames
 			s.trace += "z"
@@ -518,6 +602,9 @@ func verifGen_session() {
 			}
 			s.queue = append(s.queue, vSessIn{kind: vsMsg, typ: MessageText, payload: p})
 		}
+	}
+	if s.open != nil {
+		s.opEnd()
 	}
 	vReach("Gen.session.program-done")
 	// drain: the application reads what the peer has sent so far (every pending Ping is answered on the way)
